@@ -712,8 +712,18 @@ func (c *Checker) checkMethodsInConstants() {
 }
 
 func (c *Checker) checkMethodInConstant(method *types.Method, usedInConstants ds.Set[value.Symbol]) {
+	c.checkMethodInConstantVisited(method, usedInConstants, make(map[*types.Method]bool))
+}
+
+func (c *Checker) checkMethodInConstantVisited(method *types.Method, usedInConstants ds.Set[value.Symbol], visited map[*types.Method]bool) {
+	if visited[method] {
+		// methods can call each other recursively
+		return
+	}
+	visited[method] = true
+
 	for _, calledMethod := range method.CalledMethods {
-		c.checkMethodInConstant(calledMethod, usedInConstants)
+		c.checkMethodInConstantVisited(calledMethod, usedInConstants, visited)
 	}
 
 	for usedInConstant := range usedInConstants {
